@@ -22,6 +22,8 @@ func main() {
 	list := flag.Bool("list", false, "list checks")
 	budget := flag.Duration("budget", 0, "internal time cap (run ends with exhaustive:false)")
 	cpuprof := flag.String("cpuprofile", "", "write cpu profile")
+	shard := flag.String("shard", "", "worker mode: i/n")
+	partial := flag.String("partial", "", "worker mode: write the partial report to this file")
 	flag.Parse()
 	debug.SetGCPercent(400)
 	if *cpuprof != "" {
@@ -63,7 +65,13 @@ func main() {
 	if j, err := strconv.Atoi(os.Getenv("VERIF_JOBS")); err == nil && j > 0 {
 		workers = j
 	}
-	rc := &props.RunCtx{Tier: tier, Seed: seed, Workers: workers, Only: *only, Verbose: *verbose}
+	rc := &props.RunCtx{Tier: tier, Seed: seed, Workers: workers, Only: *only, Verbose: *verbose, Shard: -1, Partial: *partial}
+	if *shard != "" {
+		if _, err := fmt.Sscanf(*shard, "%d/%d", &rc.Shard, &rc.NShards); err != nil {
+			fmt.Fprintln(os.Stderr, "bad -shard")
+			os.Exit(2)
+		}
+	}
 	if *budget > 0 {
 		rc.Deadline = time.Now().Add(*budget)
 	}
